@@ -740,8 +740,9 @@ fn exec(s: &mut Box<dyn Store>, op: &Op) -> Option<Value> {
             Op::PutBatch(ds) => {
                 let dj: Vec<Value> = ds.iter().map(|d| digest(d)).collect();
                 match s.put_batch(ds.to_vec())? {
-                    Ok(ids) => json!({"op":"put_batch","ds":dj,"ok":true,"ids":ids}),
-                    Err(()) => json!({"op":"put_batch","ds":dj,"ok":false,"ids":[]}),
+                    Ok(ids) => json!({"op":"put_batch","ds":dj,"ok":true,"ids":ids,"len_after":s.len()}),
+                    // len() right after a refused batch: a cheap projection that shows whether the refusal left something behind
+                    Err(()) => json!({"op":"put_batch","ds":dj,"ok":false,"ids":[],"len_after":s.len()}),
                 }
             }
             Op::Get(id) => {
@@ -1216,7 +1217,7 @@ fn drive(a: &Args) {
                         break;
                     }
                     let (bulk, name) = &all[i];
-                    let t0 = std::time::Instant::now();
+                    let t0 = thread_cpu_ms();
                     let mut own = if isolated(a, name) {
                         let mut x = Tracer::new(&a.out, &format!("bs-s{i:03}"));
                         x.max_events = usize::MAX;
@@ -1235,7 +1236,7 @@ fn drive(a: &Args) {
                         drive_mutable(tr, &mut c, a, name, thorough);
                     }
                     let mut cj = c.json();
-                    cj["wall_ms"] = json!(t0.elapsed().as_millis() as u64);
+                    cj["cpu_ms"] = json!(thread_cpu_ms() - t0);
                     results.lock().unwrap().push((name.clone(), cj));
                     if let Some(mut x) = own {
                         x.close();
@@ -1262,6 +1263,15 @@ fn drive(a: &Args) {
     let _ = std::fs::remove_dir(TMP_ROOT);
     write_summary(&a.out, &json!({"mode":"drive","events":events,"runs":runs,"files":files,"subjects":per_subject,
         "mutable_subjects":msubs.len(),"bulk_subjects":bsubs.len()}));
+}
+
+/// CPU time of the calling thread in ms (wall time says little on a loaded machine)
+fn thread_cpu_ms() -> u64 {
+    let mut ts = libc::timespec { tv_sec: 0, tv_nsec: 0 };
+    unsafe {
+        libc::clock_gettime(libc::CLOCK_THREAD_CPUTIME_ID, &mut ts);
+    }
+    ts.tv_sec as u64 * 1000 + ts.tv_nsec as u64 / 1_000_000
 }
 
 fn isolated(a: &Args, name: &str) -> bool {
@@ -1394,7 +1404,7 @@ fn rec_index(v: &Value) -> usize {
 }
 
 fn replay_subject(a: &Args, tr: &mut Tracer, name: &str, idx: usize, behaviours: &[Value]) -> (Value, usize) {
-    let t0 = std::time::Instant::now();
+    let t0 = thread_cpu_ms();
     let mut c = Counters::default();
     let mut rng = Rng::new(a.seed).derive("b2sample").derive(name);
     let sample_every = a.get_u64("sample", 300);
@@ -1433,7 +1443,7 @@ fn replay_subject(a: &Args, tr: &mut Tracer, name: &str, idx: usize, behaviours:
         };
         for (ci, conc) in concs.iter().enumerate() {
             // the 64 KiB concretisation on a seeded tenth of the behaviours
-            if (*conc == "big" || (rare_empty && *conc == "tiny")) && (bi + idx) % (if rare_empty && *conc == "tiny" { 30 } else { 10 }) != 0 {
+            if (*conc == "big" || (rare_empty && *conc == "tiny")) && (bi + idx) % (if rare_empty && name != "dictzip:small" { 30 } else { 10 }) != 0 {
                 continue;
             }
             // subjects with an expensive constructor (dictionary training) are reused across behaviours:
@@ -1585,7 +1595,7 @@ fn replay_subject(a: &Args, tr: &mut Tracer, name: &str, idx: usize, behaviours:
     v["unsupported"] = json!(unsupported);
     v["mismatching"] = json!(mism);
     v["mismatch_traces_written"] = json!(written);
-    v["wall_ms"] = json!(t0.elapsed().as_millis() as u64);
+    v["cpu_ms"] = json!(thread_cpu_ms() - t0);
     (v, executed)
 }
 
